@@ -192,6 +192,37 @@ func (m *Machine) syncIntrinsic(s *State, f *Frame, x ssa.Value, name string, ar
 		s.store(p, nv)
 		set(nv)
 		return true
+	case "(*sync/atomic.Int64).CompareAndSwap":
+		p := cell(args[0].(Ptr), 2)
+		cur := sc(s.load(p))
+		eq := c.Cmp("=", cur, sc(args[1]))
+		s.store(p, Sc{c.Ite(eq, sc(args[2]), cur)})
+		set(Sc{eq})
+		return true
+	case "(*sync/atomic.Int64).Swap":
+		p := cell(args[0].(Ptr), 2)
+		set(s.load(p))
+		s.store(p, args[1])
+		return true
+	case "(*sync/atomic.Int32).Store", "(*sync/atomic.Uint32).Store":
+		s.store(cell(args[0].(Ptr), 1), args[1])
+		return true
+	case "(*sync/atomic.Int32).Load", "(*sync/atomic.Uint32).Load":
+		set(s.load(cell(args[0].(Ptr), 1)))
+		return true
+	case "(*sync/atomic.Int32).Add", "(*sync/atomic.Uint32).Add":
+		p := cell(args[0].(Ptr), 1)
+		nv := Sc{c.BvBin("bvadd", sc(s.load(p)), sc(args[1]))}
+		s.store(p, nv)
+		set(nv)
+		return true
+	case "(*sync/atomic.Int32).CompareAndSwap":
+		p := cell(args[0].(Ptr), 1)
+		cur := sc(s.load(p))
+		eq := c.Cmp("=", cur, sc(args[1]))
+		s.store(p, Sc{c.Ite(eq, sc(args[2]), cur)})
+		set(Sc{eq})
+		return true
 	case "(*sync/atomic.Bool).Store":
 		b := sc(args[1])
 		s.store(cell(args[0].(Ptr), 1), Sc{c.Ite(b, c.BV(1, 32), c.BV(0, 32))})
